@@ -65,6 +65,45 @@ CLAIMED['C05'] = dict(level='proof', design='DESIGN.md section 7 (C05)',
          'downstream accepted exactly it and its minimum delay (up to one ulp) elapsed, level == stored parts.',
     note='Trusted: pyvc encoding, floats as reals with abstract ulp, sorted() contract; batches not mutated while stored (rely).',
     technique='contract-based deductive verification: class invariant, nested loop invariants, ghost counters, ghost trace, z3')
+T_ = 'contract-based deductive verification: VCs generated from the real AST (pyvc), interface contracts + rely/guarantee between devices, ghost trace, z3'
+CLAIMED['C02'] = dict(level='proof', design='DESIGN.md section 7 (C02)', technique=T_,
+    text='Per-activation ownership posts of every device method (accept iff open and then hold exactly the item, output cleared iff a '
+         'downstream answered True, buffer pops only the taken head, failure discards and reports exactly the part in process, '
+         'source budget invariant) proved for all inputs; the global census is a hand lemma over these posts.',
+    note='Trusted: pyvc encoding; neighbour interface contract assumed of unknown classes; ledger summation lemma on paper.')
+CLAIMED['C03'] = dict(level='proof', design='DESIGN.md section 7 (C03)', technique=T_,
+    text='No-lost-wake-up mechanisms proved per method: blocked hand-overs leave the retry flag (or a timed retry) set, '
+         'space_available_downstream schedules the retry at the same instant, every opening of a device notifies all upstreams.',
+    note='Trusted: pyvc encoding; two-party induction W4 on paper; termination of finite-horizon runs NOT decided.')
+CLAIMED['C06'] = dict(level='proof', design='DESIGN.md section 7 (C06)', technique=T_,
+    text='Cycle timer contract: exactly one FINISH_PROCESSING event at now + max(0, cycle time after receive callbacks + one-shot '
+         'offset), offset reset, one part at a time; pause/cancel of all events on shutdown/failure; source restarts a full cycle per '
+         'part; sink holds its slot for its cycle time.',
+    note='Trusted: pyvc encoding; interruption-sum induction and the timer invariant on paper (pieces machine-checked).')
+CLAIMED['C08'] = dict(level='proof', design='DESIGN.md section 7 (C08)', technique=T_,
+    text='Routing contracts of PartFlowController, DecisionGate, GroupPath/GroupInput/GroupOutput and Part history: offers only to '
+         'configured downstreams in waiting-since order, gates and blocked inputs refuse cleanly, refusals clean history and group '
+         'stack, group exit through the entry path (defect repaired), sink collects in arrival order.',
+    note='Trusted: pyvc encoding; sorted() contract; Group.__init__ and three forwarding methods not under contract.')
+CLAIMED['C15'] = dict(level='proof', design='DESIGN.md section 7 (C15)', technique=T_,
+    text='One record per occurrence with the documented tuple, read off the ghost trace of add_datapoint calls; add_datapoint '
+         'appends exactly one record to exactly the addressed series; trace entry per dispatched event iff tracing.',
+    note='Trusted: pyvc encoding; series separation precondition of add_datapoint; json export.')
+CLAIMED['C16'] = dict(level='proof', design='DESIGN.md section 7 (C16)', technique=T_,
+    text='Asset value/history chain invariant and add_value/add_cost/initialize posts, source and sink tallies, maintainer cost.',
+    note='Trusted: pyvc encoding; telescoping lemma; Batch.value / net value sums not machine-checked.')
+CLAIMED['C14'] = dict(level='other', design='DESIGN.md section 7 (C14)',
+    technique='syntactic obligations over the real AST (structure of simulate_multiple_times, nondeterminism-source scan); the two-run clauses are not decided',
+    text='PARTIAL: index-order structure of both branches of simulate_multiple_times and of _simulation_helper, and an effect scan '
+         'showing the only nondeterminism sources are the tie-break random.random() and a wall-clock reading that flows only into '
+         'print; no shared mutable defaults.',
+    note='Not decided: split-run equivalence (hand argument from C01.run), id-offset independence, in-process vs worker-process '
+         'equality (pickling).  These are two-run relational properties outside this family.')
+CLAIMED['C20'] = dict(level='proof', design='DESIGN.md section 7 (C20)', technique=T_,
+    text='System lifecycle contracts (registration with the most recent system, single initialisation, active-system check, '
+         'find_assets) and late creation: the real constructor chains are executed with the system already initialised; reads of '
+         'not-yet-assigned attributes are AttributeError paths.  Three late-creation defects repaired, one (Source) recorded.',
+    note='Trusted: pyvc encoding; two-run equality late vs early creation not machine-checked; known finding: Source.')
 NOT_APPLICABLE = {
     'C04': 'whole-line max-plus recurrence equality is a relational whole-history property outside contract-based '
            'verification (DESIGN.md section 8); its local timing lemmas are proved under C01/C05/C06',
